@@ -236,7 +236,7 @@ Proof.
     - rewrite Frole. reflexivity.
     - rewrite Flog. exact A4.
     - rewrite Fcommit. exact A5.
-    - intros _. rewrite Fvotes. reflexivity.
+    - intros _. rewrite Fvotes. split; [reflexivity|left; reflexivity].
     - intros f m0 Hf Hne Hg. rewrite Fmatch in Hg. eauto.
     - intros _. left. rewrite Fterm, A1. f_equal. f_equal. lia. }
   assert (L5 : LS n s1 s5).
@@ -330,7 +330,8 @@ Proof.
   - constructor; unfold M.do_commit; cbn [M.nodes M.grants]; fold j; rewrite ?upd_eq;
       cbn [M.term M.voted M.rl M.log M.commit M.votesFrom M.matchIdx]; rewrite ?nd_upd; cbn; auto.
     unfold p. lia.
-  - eapply Hn_hv; [|apply (LS_h _ _ _ _ _ L)]. reflexivity.
+  - destruct (LS_h _ _ _ _ _ L) as [B1 B2 B3 B4 B5 B6 B7 B8].
+    constructor; rewrite ?nd_upd; cbn; auto. unfold x in *. lia.
   - apply (LS_self _ _ _ _ _ L).
   - apply (LS_others _ _ _ _ _ L).
   - exists []. rewrite app_nil_r. split; auto. apply Ro_nil.
